@@ -54,6 +54,11 @@ def expm_krylov(Afunc, dt, vstart: xp.ndarray, block_size=50):
     for j in range(len(vstart)):
         
         w = Afunc(V[j])
+        if j == 0 and xp.iscomplexobj(w) and not xp.iscomplexobj(V):
+            # a complex Hermitian operator acting on a real start vector: the Krylov vectors are complex
+            V, old_V = xp.empty(V.shape, dtype=w.dtype), V
+            V[0] = old_V[0]
+            del old_V
         alpha[j] = xp.vdot(w, V[j]).real
 
         if j == len(vstart)-1:
@@ -61,7 +66,7 @@ def expm_krylov(Afunc, dt, vstart: xp.ndarray, block_size=50):
             return _expm_krylov(alpha[:j+1], beta[:j], V[:j+1, :].T, nrmv, dt), j+1
         
         if len(V) == j+1:
-            V, old_V = xp.empty((len(V) + block_size, len(vstart)), dtype=vstart.dtype), V
+            V, old_V = xp.empty((len(V) + block_size, len(vstart)), dtype=V.dtype), V
             V[:len(old_V)] = old_V
             del old_V
             alpha = np.concatenate([alpha, np.zeros(block_size)])
